@@ -22,12 +22,15 @@ import (
 	"strconv"
 	"strings"
 	"sync"
+	"sync/atomic"
+	"time"
 
 	"github.com/makiuchi-d/gozxing"
 	"github.com/makiuchi-d/gozxing/aztec"
 	"github.com/makiuchi-d/gozxing/aztec/decoder"
 	"github.com/makiuchi-d/gozxing/aztec/detector"
 	"github.com/makiuchi-d/gozxing/common"
+	"github.com/makiuchi-d/gozxing/common/reedsolomon"
 	"golang.org/x/text/transform"
 )
 
@@ -210,9 +213,14 @@ func c11EC(s string) string { return strings.TrimSuffix(s, "%") }
 
 // path (a): the decoder on a module matrix
 func c11GoDecode(g [][]bool, compact bool, dw, layers int) (out string, text string, ok bool) {
-	out = Safe(func() string {
+	return c11GoDecodeWith(decoder.NewDecoder(), g, compact, dw, layers)
+}
+
+// the same on a given (possibly long-lived) Decoder value
+func c11GoDecodeWith(dec *decoder.Decoder, g [][]bool, compact bool, dw, layers int) (out string, text string, ok bool) {
+	out = SafeTC11(func() string {
 		dr := detector.NewAztecDetectorResult(c11BitMatrix(g), nil, compact, dw, layers)
-		res, err := decoder.NewDecoder().Decode(dr)
+		res, err := dec.Decode(dr)
 		if err != nil {
 			if res != nil {
 				return "BOTH"
@@ -230,6 +238,11 @@ func c11GoDecode(g [][]bool, compact bool, dw, layers int) (out string, text str
 
 // path (b): the whole reader on an image
 func c11GoRead(img *image.Gray, global bool) (out string, text string, ok bool) {
+	return c11GoReadWith(aztec.NewAztecReader(), img, global)
+}
+
+// the same on a given (possibly long-lived) AztecReader value
+func c11GoReadWith(rd *aztec.AztecReader, img *image.Gray, global bool) (out string, text string, ok bool) {
 	out = SafeTC11(func() string {
 		var bmp *gozxing.BinaryBitmap
 		var err error
@@ -241,7 +254,7 @@ func c11GoRead(img *image.Gray, global bool) (out string, text string, ok bool) 
 		if err != nil {
 			return "ERR:bitmap"
 		}
-		res, err := aztec.NewAztecReader().Decode(bmp, nil)
+		res, err := rd.Decode(bmp, nil)
 		if err != nil {
 			return "ERR:" + errKind(err)
 		}
@@ -254,11 +267,25 @@ func c11GoRead(img *image.Gray, global bool) (out string, text string, ok bool) 
 	return
 }
 
-func SafeTC11(f func() string) string { return Safe(f) }
+// watchdog around every call into the real decoder / reader (C06: returns in bounded time).  A call that does
+// not return is reported as TIMEOUT; its goroutine cannot be stopped, so after a few of them the remaining
+// calls are answered TIMEOUT without being started (the verdict is already a violation).
+var c11Timeouts int32
+
+func SafeTC11(f func() string) string {
+	if atomic.LoadInt32(&c11Timeouts) >= 8 {
+		return "TIMEOUT"
+	}
+	out := SafeT(20*time.Second, f)
+	if out == "TIMEOUT" {
+		atomic.AddInt32(&c11Timeouts, 1)
+	}
+	return out
+}
 
 // detector only: parameters and sampled grid
 func c11GoDetect(img *image.Gray) (desc string, bits []string) {
-	desc = Safe(func() string {
+	desc = SafeTC11(func() string {
 		bmp, err := gozxing.NewBinaryBitmapFromImage(img)
 		if err != nil {
 			return "ERR:bitmap"
@@ -283,6 +310,31 @@ func c11GoDetect(img *image.Gray) (desc string, bits []string) {
 		return fmt.Sprintf("ok compact=%v layers=%d dw=%d", r.IsCompact(), r.GetNbLayers(), r.GetNbDatablocks())
 	})
 	return
+}
+
+// the library's Reed-Solomon ENCODER over the field of codeword size w: the n check words of `words`
+func c11GoRSParity(w int, words []int, n int) string {
+	return SafeTC11(func() string {
+		var f *reedsolomon.GenericGF
+		switch w {
+		case 4:
+			f = reedsolomon.GenericGF_AZTEC_PARAM
+		case 6:
+			f = reedsolomon.GenericGF_AZTEC_DATA_6
+		case 8:
+			f = reedsolomon.GenericGF_AZTEC_DATA_8
+		case 10:
+			f = reedsolomon.GenericGF_AZTEC_DATA_10
+		default:
+			f = reedsolomon.GenericGF_AZTEC_DATA_12
+		}
+		buf := make([]int, len(words)+n)
+		copy(buf, words)
+		if err := reedsolomon.NewReedSolomonEncoder(f).Encode(buf, n); err != nil {
+			return "ERR:" + errKind(err)
+		}
+		return ints(buf[len(words):])
+	})
 }
 
 func c11GoHLD(bits []bool) string {
@@ -588,6 +640,94 @@ func c11AllSizes() []c11Sz {
 	return s
 }
 
+// ---------- reuse / history: one long-lived Decoder / AztecReader over a sequence of symbols ----------
+
+type c11ReuseItem struct {
+	sz   c11Sz
+	arg  string // t:<hex>
+	want string
+	sym  *c11Sym
+	g    [][]bool
+}
+
+func c11ReuseName(it *c11ReuseItem) string {
+	return fmt.Sprintf("%s-L%d", c11Kind(it.sz.compact), it.sz.layers)
+}
+
+// the sequence as an oracle input: "<kind> <layers> <arg>[ rot=<deg>]; ..." (replayable: C11_REPLAY="reuse decoder|reader <sequence>")
+func c11ReuseDesc(seq []*c11ReuseItem, rots []int) string {
+	parts := make([]string, len(seq))
+	for i, it := range seq {
+		parts[i] = fmt.Sprintf("%s %d %s", c11Kind(it.sz.compact), it.sz.layers, it.arg)
+		if rots != nil {
+			parts[i] += fmt.Sprintf(" rot=%d", rots[i]*90)
+		}
+	}
+	return strings.Join(parts, "; ")
+}
+
+// c11RunReuse decodes the sequence with ONE Decoder value (matrix path) and, when withReader, with ONE
+// AztecReader value (image path, scale 3, quiet zone 2, rotation rots[i] quarter turns).  Every result must equal the
+// result of a fresh instance on the same symbol and the expected text: a decoder is a function of its
+// argument, whatever it decoded before.  verbose prints every step (replay).
+func c11RunReuse(c *Ctx, seq []*c11ReuseItem, rots []int, withReader bool, verbose bool) {
+	dec := decoder.NewDecoder()
+	rd := aztec.NewAztecReader()
+	prev := "start"
+	for i, it := range seq {
+		name := c11ReuseName(it)
+		out, text, ok := c11GoDecodeWith(dec, it.g, it.sz.compact, it.sym.dw, it.sz.layers)
+		fout, _, fok := c11GoDecode(it.g, it.sz.compact, it.sym.dw, it.sz.layers)
+		good := ok && fok && out == fout && text == it.want
+		c.Note("reuse:" + name)
+		c.Oracle("reuse", good, fmt.Sprintf("reuse:%s-after-%s", name, prev), "reuse decoder "+c11ReuseDesc(seq[:i+1], nil),
+			fmt.Sprintf("call %d of one long-lived decoder.Decoder (previous symbol: %s): got %s; a fresh Decoder on the same symbol: %s; want text %s",
+				i+1, prev, c11Short(out), c11Short(fout), hexs([]byte(it.want))))
+		if verbose {
+			fmt.Printf("decoder call %2d %-11s reused: %s | fresh: %s | ok=%v\n", i+1, name, c11Short(out), c11Short(fout), good)
+		}
+		if withReader {
+			img := c11Render(c11Rotate(it.g, rots[i]), 3, 2)
+			ro, rtext, rok := c11GoReadWith(rd, img, false)
+			fro, _, frok := c11GoRead(img, false)
+			rgood := rok && frok && ro == fro && rtext == it.want
+			c.Oracle("reuse-read", rgood, fmt.Sprintf("reuse-read:%s-after-%s", name, prev), "reuse reader "+c11ReuseDesc(seq[:i+1], rots[:i+1]),
+				fmt.Sprintf("call %d of one long-lived aztec.AztecReader (previous symbol: %s): got %s; a fresh reader on the same image: %s; want text %s",
+					i+1, prev, c11Short(ro), c11Short(fro), hexs([]byte(it.want))))
+			if verbose {
+				fmt.Printf("reader  call %2d %-11s reused: %s | fresh: %s | ok=%v\n", i+1, name, c11Short(ro), c11Short(fro), rgood)
+			}
+		}
+		prev = name
+	}
+}
+
+// parse "<kind> <layers> <arg>[ rot=<deg>]; ..." back into a sequence (replay)
+func c11ReuseParse(c *Ctx, s string) (seq []*c11ReuseItem, rots []int) {
+	for _, part := range strings.Split(s, ";") {
+		f := strings.Fields(part)
+		if len(f) < 3 {
+			continue
+		}
+		compact := f[0] == "compact"
+		layers, _ := strconv.Atoi(f[1])
+		sym, e := c11Ref(c, compact, layers, f[2])
+		if sym == nil {
+			fmt.Println("reference encoder:", e)
+			continue
+		}
+		rot := 0
+		for _, x := range f[3:] {
+			if strings.HasPrefix(x, "rot=") {
+				rot, _ = strconv.Atoi(x[4:])
+			}
+		}
+		seq = append(seq, &c11ReuseItem{c11Sz{compact, layers}, f[2], c11Latin1(c11Unhex(strings.TrimPrefix(f[2], "t:"))), sym, c11Grid(sym.rows)})
+		rots = append(rots, rot/90)
+	}
+	return
+}
+
 // ---------- the suite ----------
 
 type c11Pos struct{ x, y int }
@@ -596,6 +736,12 @@ type c11Pos struct{ x, y int }
 // the read suite on the real code and prints what the detector saw.
 func c11Replay(c *Ctx, in string) {
 	f := strings.Fields(in)
+	if len(f) >= 5 && f[0] == "reuse" {
+		// C11_REPLAY="reuse decoder compact 1 t:41; full 1 t:42" re-runs a history on one long-lived instance
+		seq, rots := c11ReuseParse(c, strings.Join(f[2:], " "))
+		c11RunReuse(c, seq, rots, f[1] == "reader", true)
+		return
+	}
 	if len(f) < 8 || f[0] != "ref" {
 		fmt.Println("cannot parse replay input")
 		return
@@ -645,6 +791,7 @@ func runC11(c *Ctx) {
 	}
 	c.res.Rule = "reference symbols from the Lean ISO 24778 encoder: all 36 sizes x texts of 7 styles (upper, sentences with two-byte punct codes, digits, binary incl. runs across the 31/32-byte boundary, mixed/lower, interleaved) filling ~2%/45%/~100% of the size, random valid latch/shift scripts incl. FLG(n); " +
 		"each decoded (a) by decoder.Decode on the matrix, (b) by AztecReader.Decode on a rendered image (scale, 4 rotations, quiet zone 2..4, hybrid/global binarizer), (c) with <= floor(ec/2) damaged codewords; " +
+		"reuse/history: one long-lived decoder.Decoder and one long-lived AztecReader decode sequences of reference symbols alternating compact/full with equal layer counts 1..4, other sizes and back, and random orders; every result must equal a fresh instance's and the text; " +
 		"correspondence: Decode on reference/damaged/random matrices, HighLevelDecode on random/mutated/structured bit vectors (empty, 1 bit, every FLG(n), every ECI digit count), read order vs reference layout for all 36 sizes; non-trivial = distinct op line / distinct oracle input"
 	sizes := c11AllSizes()
 	// fw.go seeds splitmix64 as seed*GOLDEN+c with increment GOLDEN, so the streams of seeds s and s+1
@@ -681,6 +828,90 @@ func runC11(c *Ctx) {
 		pos[sz] = ps
 		posMu.Unlock()
 	})
+
+	// ---- reuse / history: ONE long-lived Decoder and ONE long-lived AztecReader over sequences of symbols ----
+	// (a decoder must be a function of its argument: no state may leak from one symbol to the next).  The
+	// orders deliberately alternate compact/full with EQUAL layer counts 1..4 (sizes that share every
+	// per-layer-count quantity), then move to other sizes and come back, then random orders.
+	{
+		rr := c.Rng.Fork()
+		var pool []*c11ReuseItem
+		poolIdx := map[c11Sz][]int{}
+		reuseSizes := []c11Sz{}
+		for l := 1; l <= 4; l++ {
+			reuseSizes = append(reuseSizes, c11Sz{true, l}, c11Sz{false, l})
+		}
+		for _, l := range []int{5, 8, 9, 12, 22, 23} {
+			reuseSizes = append(reuseSizes, c11Sz{false, l})
+		}
+		for _, sz := range reuseSizes {
+			for k := 0; k < 2; k++ {
+				style := []int{0, 1, 2, 4}[rr.Intn(4)]
+				txt := c11Text(rr, rr.Range(1, 9), style)
+				arg := "t:" + hexs(txt)
+				sym, errs := c11Ref(c, sz.compact, sz.layers, arg)
+				if sym == nil {
+					c.Note("reuse-ref:" + errs)
+					continue
+				}
+				poolIdx[sz] = append(poolIdx[sz], len(pool))
+				pool = append(pool, &c11ReuseItem{sz, arg, c11Latin1(txt), sym, c11Grid(sym.rows)})
+			}
+		}
+		pick := func(sz c11Sz) *c11ReuseItem {
+			ix := poolIdx[sz]
+			if len(ix) == 0 {
+				return nil
+			}
+			return pool[ix[rr.Intn(len(ix))]]
+		}
+		var seqs [][]*c11ReuseItem
+		mk := func(szs ...c11Sz) {
+			var q []*c11ReuseItem
+			for _, sz := range szs {
+				if it := pick(sz); it != nil {
+					q = append(q, it)
+				}
+			}
+			if len(q) > 0 {
+				seqs = append(seqs, q)
+			}
+		}
+		for l := 1; l <= 4; l++ {
+			// full then compact with the same layer count, and the other way round, each on its own long-lived instance
+			mk(c11Sz{false, l}, c11Sz{true, l}, c11Sz{false, l}, c11Sz{true, l})
+			mk(c11Sz{true, l}, c11Sz{false, l}, c11Sz{true, l}, c11Sz{false, l})
+		}
+		// equal layer counts, then different sizes, then back
+		mk(c11Sz{true, 1}, c11Sz{false, 1}, c11Sz{true, 2}, c11Sz{false, 2}, c11Sz{true, 3}, c11Sz{false, 3}, c11Sz{true, 4}, c11Sz{false, 4},
+			c11Sz{false, 5}, c11Sz{true, 2}, c11Sz{false, 9}, c11Sz{true, 4}, c11Sz{false, 12}, c11Sz{false, 1}, c11Sz{false, 23}, c11Sz{true, 3},
+			c11Sz{false, 4}, c11Sz{true, 4}, c11Sz{false, 3}, c11Sz{true, 3}, c11Sz{false, 2}, c11Sz{true, 2}, c11Sz{false, 1}, c11Sz{true, 1})
+		mk(c11Sz{false, 22}, c11Sz{false, 23}, c11Sz{false, 8}, c11Sz{false, 9}, c11Sz{false, 2}, c11Sz{false, 3}, c11Sz{true, 2}, c11Sz{true, 3},
+			c11Sz{false, 3}, c11Sz{false, 2}, c11Sz{false, 9}, c11Sz{false, 8}, c11Sz{false, 23}, c11Sz{false, 22})
+		// random orders (small sizes three times as likely)
+		for k := 0; k < c.Pick(12, 200); k++ {
+			var szs []c11Sz
+			for n := rr.Range(6, 24); n > 0; n-- {
+				if rr.Chance(0.75) {
+					szs = append(szs, reuseSizes[rr.Intn(8)])
+				} else {
+					szs = append(szs, reuseSizes[rr.Intn(len(reuseSizes))])
+				}
+			}
+			mk(szs...)
+		}
+		seqRots := make([][]int, len(seqs))
+		for i, q := range seqs {
+			seqRots[i] = make([]int, len(q))
+			for j := range q {
+				seqRots[i][j] = rr.Intn(4)
+			}
+		}
+		c.Parallel(len(seqs), 16, func(i int, _ *Rng) {
+			// the image path on every other sequence in the quick tier (it costs ~20x the matrix path)
+			c11RunReuse(c, seqs[i], seqRots[i], c.Thorough || i%2 == 0, false)
+		})
+	}
 
 	// damage `ne` codewords of the symbol (stream index = startPad + word*w + bit)
 	damage := func(r *Rng, sym *c11Sym, g [][]bool, ne int) [][]bool {
@@ -743,12 +974,38 @@ func runC11(c *Ctx) {
 		}
 		id := fmt.Sprintf("ref %s %d %s", kind, j.sz.layers, j.arg)
 		g := c11Grid(sym.rows)
+		// cross-check of the reference (evidence only, no verdict: the Aztec decoder does not use the encoder):
+		// the reference check words = the library's own ReedSolomonEncoder over the field of this size
+		// (theorem ref_parity_is_rs_encode, here on the real code), also for the mode message over GF(16)
+		if len(sym.chk) > 0 && (c.Thorough || j.sz.layers <= 12 || r.Chance(0.3)) {
+			if c11GoRSParity(c11WordSize(j.sz.layers), sym.words, len(sym.chk)) == ints(sym.chk) {
+				c.Note("ref-rs-vs-go-encoder:agree")
+			} else {
+				c.Note("ref-rs-vs-go-encoder:DISAGREE " + id)
+			}
+		}
+		if len(sym.mode) == 28 || len(sym.mode) == 40 {
+			nd, nc := 2, 5
+			if len(sym.mode) == 40 {
+				nd, nc = 4, 6
+			}
+			mw := make([]int, nd+nc)
+			for i := range mw {
+				v, _ := strconv.ParseInt(sym.mode[4*i:4*i+4], 2, 32)
+				mw[i] = int(v)
+			}
+			if c11GoRSParity(4, mw[:nd], nc) == ints(mw[nd:]) {
+				c.Note("ref-mode-rs-vs-go-encoder:agree")
+			} else {
+				c.Note("ref-mode-rs-vs-go-encoder:DISAGREE " + id)
+			}
+		}
 		// (a) decoder on the matrix
 		out, text, ok := c11GoDecode(g, j.sz.compact, sym.dw, j.sz.layers)
 		c.Oracle("decode", ok && text == j.want, fmt.Sprintf("decode-%s-%d", kind, j.sz.layers), id,
 			fmt.Sprintf("Decoder.Decode on the reference matrix: got %s want text %s", c11Short(out), hexs([]byte(j.want))))
-		// the model's list-based RS mirror is slow on big symbols: in the quick tier compare those 1 in 3
-		cmpModel := c.Thorough || j.sz.layers <= 10 || r.Chance(0.34)
+		// the model's list-based Reed-Solomon decoder is slow on big symbols: in the quick tier compare those 2 in 3
+		cmpModel := c.Thorough || j.sz.layers <= 10 || r.Chance(0.67)
 		if cmpModel {
 			c11CmpNow(c, "decode", fmt.Sprintf("c11 decode %s %d %d %s %s", kind, j.sz.layers, sym.dw, strings.Join(sym.rows, "/"), regArg), out)
 		}
